@@ -4,6 +4,7 @@ import PpciVerif.Spec.ArmImm
 import PpciVerif.Proofs.Bits
 import PpciVerif.Proofs.Bitfun
 import PpciVerif.Proofs.BitfunEnc
+import PpciVerif.Proofs.T1_bitfun
 /-!
 # C39 — bit-manipulation helpers compute their mathematical definitions
 
@@ -280,5 +281,142 @@ example : encodeImm32 0xFF000000 = .ok 0x4FF ∧ Spec.ArmImm.decode 0x4FF = 0xFF
 example : encodeImm32 0x101 = .error .ValueError ∧ Spec.ArmImm.representableB 0x101 = false := by decide
 example : align 13 8 = .ok 16 ∧ wrapNegative (-1) 8 = .ok 255 ∧ inrange 128 8 = .ok false := by decide
 example : valueToBytesBigEndian 0x1234 4 = [0, 0, 0x12, 0x34] := by decide
+
+/-! ### T1 translation tie: the functions REGENERATED from `ppci/utils/bitfun.py`
+
+`Gen.Py_bitfun.*` is written by `translate/py2lean.py` from the source text of the checked tree on
+every run.  `gen_*_eq_model`: for every value / count (any integer), every width (`Nat`, as in the
+hand model) and every `fuel` above the stated bound, the regenerated function IS the hand model
+(errors included; `FuelExhausted` never returned, i.e. the loops terminate).  Then the statement's
+helpers are restated directly about the regenerated functions. -/
+section T1
+open Proofs.T1.Bitfun Model.PyRt
+
+theorem gen_rotate_right_eq_model (fuel : Nat) (v n : Int) (hn : 0 ≤ n) :
+    Gen.Py_bitfun.rotate_right fuel v n = liftI (rotateRight v n) := Proofs.T1.Bitfun.gen_rotate_right_eq_model fuel v n hn
+theorem gen_rotate_left_eq_model (fuel : Nat) (v n : Int) :
+    Gen.Py_bitfun.rotate_left fuel v n = liftI (rotateLeft v n) := Proofs.T1.Bitfun.gen_rotate_left_eq_model fuel v n
+theorem gen_rotl_eq_model (fuel : Nat) (v count : Int) (bits : Nat) :
+    Gen.Py_bitfun.rotl fuel v count (bits : Int) = liftI (Model.Bitfun.rotl v count bits) := Proofs.T1.Bitfun.gen_rotl_eq_model fuel v count bits
+theorem gen_rotr_eq_model (fuel : Nat) (v count : Int) (bits : Nat) :
+    Gen.Py_bitfun.rotr fuel v count (bits : Int) = liftI (Model.Bitfun.rotr v count bits) := Proofs.T1.Bitfun.gen_rotr_eq_model fuel v count bits
+theorem gen_reverse_bits_eq_model (fuel : Nat) (v : Int) (bits : Nat) (hf : bits + 1 ≤ fuel) :
+    Gen.Py_bitfun.reverse_bits fuel v (bits : Int) = .ok (reverseBits v bits) := Proofs.T1.Bitfun.gen_reverse_bits_eq_model fuel v bits hf
+theorem gen_correct_eq_model (fuel : Nat) (value : Int) (bits : Nat) (signed : Bool) :
+    Gen.Py_bitfun.correct fuel value (bits : Int) (Model.PyRt.ofBool signed) = .ok (Model.Bitfun.correct value bits signed) :=
+  Proofs.T1.Bitfun.gen_correct_eq_model fuel value bits signed
+theorem gen_to_signed_eq_model (fuel : Nat) (value : Int) (bits : Nat) :
+    Gen.Py_bitfun.to_signed fuel value (bits : Int) = .ok (toSigned value bits) := Proofs.T1.Bitfun.gen_to_signed_eq_model fuel value bits
+theorem gen_to_unsigned_eq_model (fuel : Nat) (value : Int) (bits : Nat) :
+    Gen.Py_bitfun.to_unsigned fuel value (bits : Int) = .ok (toUnsigned value bits) := Proofs.T1.Bitfun.gen_to_unsigned_eq_model fuel value bits
+theorem gen_sign_extend_eq_model (fuel : Nat) (value : Int) (bits : Nat) :
+    Gen.Py_bitfun.sign_extend fuel value (bits : Int) = liftI (signExtend value bits) := Proofs.T1.Bitfun.gen_sign_extend_eq_model fuel value bits
+theorem gen_clz_eq_model (fuel : Nat) (v : Int) (bits : Nat) (hf : bits + 1 ≤ fuel) :
+    Gen.Py_bitfun.clz fuel v (bits : Int) = liftN (Model.Bitfun.clz v bits) := Proofs.T1.Bitfun.gen_clz_eq_model fuel v bits hf
+theorem gen_ctz_eq_model (fuel : Nat) (v : Int) (bits : Nat) (hf : bits + 1 ≤ fuel) :
+    Gen.Py_bitfun.ctz fuel v (bits : Int) = .ok ((Model.Bitfun.ctz v bits : Nat) : Int) := Proofs.T1.Bitfun.gen_ctz_eq_model fuel v bits hf
+theorem gen_popcnt_eq_model (fuel : Nat) (v : Int) (bits : Nat) (hf : bits + 1 ≤ fuel) :
+    Gen.Py_bitfun.popcnt fuel v (bits : Int) = .ok ((Model.Bitfun.popcnt v bits : Nat) : Int) := Proofs.T1.Bitfun.gen_popcnt_eq_model fuel v bits hf
+theorem gen_encode_imm32_eq_model (fuel : Nat) (v : Int) (hf : 17 ≤ fuel) :
+    Gen.Py_bitfun.encode_imm32 fuel v = liftI (encodeImm32 v) := Proofs.T1.Bitfun.gen_encode_imm32_eq_model fuel v hf
+theorem gen_align_eq_model (fuel : Nat) (value : Int) (m : Nat) (hf : m + 1 ≤ fuel) :
+    Gen.Py_bitfun.align fuel value (m : Int) = liftI (Model.Bitfun.align value m) := Proofs.T1.Bitfun.gen_align_eq_model fuel value m hf
+theorem gen_wrap_negative_eq_model (fuel : Nat) (value : Int) (bits : Nat) :
+    Gen.Py_bitfun.wrap_negative fuel value (bits : Int) = liftI (wrapNegative value bits) := Proofs.T1.Bitfun.gen_wrap_negative_eq_model fuel value bits
+theorem gen_inrange_eq_model (fuel : Nat) (value : Int) (bits : Nat) :
+    Gen.Py_bitfun.inrange fuel value (bits : Int) = liftB (Model.Bitfun.inrange value bits) := Proofs.T1.Bitfun.gen_inrange_eq_model fuel value bits
+
+/-! the statement's helpers, about the regenerated functions -/
+
+theorem gen_rotl_spec {bits : Nat} (hb : 1 ≤ bits) {v : Int} (hv : fitsU bits v) (count : Int) (fuel : Nat) :
+    Gen.Py_bitfun.rotl fuel v count (bits : Int) = .ok (Spec.Bits.rotl bits v count : Int) := by
+  rw [gen_rotl_eq_model, rotl_eq hb hv count]; rfl
+
+theorem gen_rotr_spec {bits : Nat} (hb : 1 ≤ bits) {v : Int} (hv : fitsU bits v) (count : Int) (fuel : Nat) :
+    Gen.Py_bitfun.rotr fuel v count (bits : Int) = .ok (Spec.Bits.rotr bits v count : Int) := by
+  rw [gen_rotr_eq_model, rotr_eq hb hv count]; rfl
+
+theorem gen_rotate_right_spec {v n : Int} (hv : fitsU 32 v) (h0 : 0 ≤ n) (h1 : n ≤ 32) (fuel : Nat) :
+    Gen.Py_bitfun.rotate_right fuel v n = .ok (Spec.Bits.rotr 32 v n : Int) := by
+  rw [gen_rotate_right_eq_model fuel v n h0, rotate_right_spec hv h0 h1]; rfl
+
+theorem gen_rotate_left_spec {v n : Int} (hv : fitsU 32 v) (h0 : 0 ≤ n) (h1 : n < 32) (fuel : Nat) :
+    Gen.Py_bitfun.rotate_left fuel v n = .ok (Spec.Bits.rotl 32 v n : Int) := by
+  rw [gen_rotate_left_eq_model, rotate_left_spec hv h0 h1]; rfl
+
+theorem gen_reverse_bits_spec (v : Int) (bits : Nat) (fuel : Nat) (hf : bits + 1 ≤ fuel) :
+    Gen.Py_bitfun.reverse_bits fuel v (bits : Int) = .ok (Spec.Bits.reverse bits v : Int) := by
+  rw [gen_reverse_bits_eq_model fuel v bits hf, (reverse_bits_spec v bits).1]
+
+theorem gen_to_unsigned_spec (v : Int) (bits : Nat) (fuel : Nat) :
+    Gen.Py_bitfun.to_unsigned fuel v (bits : Int) = .ok (wrapU bits v) := by
+  rw [gen_to_unsigned_eq_model, (to_unsigned_spec v bits).1]
+
+theorem gen_to_signed_spec {bits : Nat} (hb : 1 ≤ bits) (v : Int) (fuel : Nat) :
+    Gen.Py_bitfun.to_signed fuel v (bits : Int) = .ok (wrapS bits v) := by
+  rw [gen_to_signed_eq_model, (to_signed_spec hb v).1]
+
+theorem gen_correct_spec {bits : Nat} (hb : 1 ≤ bits) (v : Int) (signed : Bool) (fuel : Nat) :
+    Gen.Py_bitfun.correct fuel v (bits : Int) (Model.PyRt.ofBool signed) = .ok (if signed then wrapS bits v else wrapU bits v) := by
+  rw [gen_correct_eq_model, correct_spec hb v signed]
+
+theorem gen_sign_extend_spec {bits : Nat} (hb : 1 ≤ bits) (v : Int) (fuel : Nat) :
+    Gen.Py_bitfun.sign_extend fuel v (bits : Int) = .ok (wrapS bits v) := by
+  rw [gen_sign_extend_eq_model, sign_extend_spec hb v]; rfl
+
+theorem gen_clz_spec {bits : Nat} (hb : 1 ≤ bits) (v : Int) (fuel : Nat) (hf : bits + 1 ≤ fuel) :
+    ∃ k : Nat, Gen.Py_bitfun.clz fuel v (bits : Int) = .ok (k : Int) ∧ IsClz bits v k := by
+  obtain ⟨k, h, hk, _⟩ := clz_spec hb v
+  exact ⟨k, by rw [gen_clz_eq_model fuel v bits hf, h]; rfl, hk⟩
+
+theorem gen_ctz_spec (v : Int) (bits : Nat) (fuel : Nat) (hf : bits + 1 ≤ fuel) :
+    ∃ k : Nat, Gen.Py_bitfun.ctz fuel v (bits : Int) = .ok (k : Int) ∧ IsCtz bits v k :=
+  ⟨_, gen_ctz_eq_model fuel v bits hf, (ctz_spec v bits).1⟩
+
+theorem gen_popcnt_spec (v : Int) (bits : Nat) (fuel : Nat) (hf : bits + 1 ≤ fuel) :
+    Gen.Py_bitfun.popcnt fuel v (bits : Int) = .ok ((((List.range bits).filter (testBit v)).length : Nat) : Int) := by
+  rw [gen_popcnt_eq_model fuel v bits hf, popcnt_spec]
+
+theorem gen_encode_imm32_sound (v e : Int) (fuel : Nat) (hf : 17 ≤ fuel) (h : Gen.Py_bitfun.encode_imm32 fuel v = .ok e) :
+    0 ≤ e ∧ e < 4096 ∧ (Spec.ArmImm.decode e : Int) = v := by
+  rw [gen_encode_imm32_eq_model fuel v hf] at h
+  cases hm : encodeImm32 v with
+  | ok e' => rw [hm] at h; cases h; exact encode_imm32_sound v e hm
+  | error x => rw [hm] at h; cases h
+
+theorem gen_encode_imm32_succeeds_iff (v : Int) (fuel : Nat) (hf : 17 ≤ fuel) :
+    (∃ e, Gen.Py_bitfun.encode_imm32 fuel v = .ok e) ↔ Spec.ArmImm.Representable v := by
+  rw [← encode_imm32_succeeds_iff, gen_encode_imm32_eq_model fuel v hf]
+  cases encodeImm32 v with
+  | ok e' => exact ⟨fun _ => ⟨e', rfl⟩, fun _ => ⟨e', rfl⟩⟩
+  | error x => exact ⟨fun ⟨e, h⟩ => (by cases h), fun ⟨e, h⟩ => (by cases h)⟩
+
+theorem gen_encode_imm32_fails_iff (v : Int) (fuel : Nat) (hf : 17 ≤ fuel) :
+    Gen.Py_bitfun.encode_imm32 fuel v = .error .ValueError ↔ ¬ Spec.ArmImm.Representable v := by
+  rw [← encode_imm32_fails_iff, gen_encode_imm32_eq_model fuel v hf]
+  cases encodeImm32 v with
+  | ok e' => exact ⟨fun h => (by cases h), fun h => (by cases h)⟩
+  | error x => cases x <;> simp [liftI, errOf]
+
+theorem gen_align_spec (v : Int) {m : Nat} (hm : 1 ≤ m) (fuel : Nat) (hf : m + 1 ≤ fuel) :
+    ∃ r, Gen.Py_bitfun.align fuel v (m : Int) = .ok r ∧ (m : Int) ∣ r ∧ v ≤ r ∧ r < v + m := by
+  obtain ⟨r, h, hr⟩ := align_spec v hm
+  exact ⟨r, by rw [gen_align_eq_model fuel v m hf, h]; rfl, hr⟩
+
+theorem gen_wrap_negative_spec {bits : Nat} (hb : 1 ≤ bits) (v : Int) (fuel : Nat) :
+    ((fitsS bits v ∨ fitsU bits v) → Gen.Py_bitfun.wrap_negative fuel v (bits : Int) = .ok (wrapU bits v)) ∧
+    (¬ (fitsS bits v ∨ fitsU bits v) → Gen.Py_bitfun.wrap_negative fuel v (bits : Int) = .error .ValueError) := by
+  rw [gen_wrap_negative_eq_model]
+  exact ⟨fun h => by rw [(wrap_negative_spec hb v).1 h]; rfl, fun h => by rw [(wrap_negative_spec hb v).2 h]; rfl⟩
+
+theorem gen_inrange_spec {bits : Nat} (hb : 1 ≤ bits) (v : Int) (fuel : Nat) :
+    Gen.Py_bitfun.inrange fuel v (bits : Int) = .ok (decide (fitsS bits v)) := by
+  rw [gen_inrange_eq_model, inrange_spec hb v]; rfl
+
+example : Gen.Py_bitfun.reverse_bits 9 0b11100001 8 = .ok 0b10000111 := by decide +kernel
+example : Gen.Py_bitfun.encode_imm32 17 0xFF000000 = .ok 0x4FF ∧ Gen.Py_bitfun.encode_imm32 17 0x101 = .error .ValueError := by decide +kernel
+example : Gen.Py_bitfun.clz 33 1 32 = .ok 31 ∧ Gen.Py_bitfun.clz 31 1 32 = .error .FuelExhausted := by decide +kernel
+
+end T1
 
 end Props.C39
